@@ -25,9 +25,12 @@ Example copy_value_table_ex :
   copy_value (VArr 5 0 2) = Some (VArr 5 0 2) /\ copy_value (VFn 0) = None.
 Proof. repeat split. Qed.
 
-(* x = y with x an ordinary (non-speculative) cell stores the copy of y's value in x *)
+(* x = y with x an ordinary cell (neither a speculative member nor a method found through a
+   prototype, both of which name a member to create on their receiver) stores the copy of
+   y's value in x *)
 Theorem assign_plain : forall src n tok left right s v,
   (forall p, load (hp s) left <> VNil (Some p)) ->
+  (forall nf p, load (hp s) left <> VNative nf (Some p)) ->
   copy_value (load (hp s) right) = Some v ->
   eval_assignment src n tok left right s = (Ok left, set_hp s (store (hp s) left v)).
 Proof. exact Arrays.assign_plain. Qed.
@@ -35,11 +38,12 @@ Print Assumptions assign_plain.
 
 Example assign_plain_ex :
   (forall p, load ex_h 2%positive <> VNil (Some p)) /\
+  (forall nf p, load ex_h 2%positive <> VNative nf (Some p)) /\
   copy_value (load ex_h ex_pa) = Some (load ex_h ex_pa) /\
   (* x = a, with x the cell 2: both cells now hold the same slice header *)
   load (hp (snd (eval_assignment [] 1 (Token.mkTok Token.TDollar 0 0) 2%positive ex_pa (st_of ex_h)))) 2%positive
   = load ex_h ex_pa.
-Proof. split; [intros p; vm_compute; discriminate|]. vm_compute. split; reflexivity. Qed.
+Proof. split; [intros p; vm_compute; discriminate|]. split; [intros nf p; vm_compute; discriminate|]. vm_compute. split; reflexivity. Qed.
 
 (* a[f] = v through Value.SetMember on a well-formed holder *)
 Theorem set_member_fill_shape : forall s pa f cell l,
